@@ -96,6 +96,10 @@ class PaxosNode(Entity):
         self._phase1_responses: dict[int, list[dict]] = {}  # ballot -> [responses]
         self._phase2_responses: dict[int, int] = {}  # ballot -> count
         self._proposed_values: dict[int, Any] = {}  # ballot -> value
+        # Phase 2 of a ballot runs once: the one value offered for each own ballot,
+        # and the distinct acceptors that accepted it
+        self._accept_sent: dict[int, Any] = {}  # ballot -> value sent in Accept
+        self._phase2_acceptors: dict[int, set[str]] = {}  # ballot -> acceptor names
 
         # Decision
         self._decided: bool = False
@@ -348,6 +352,10 @@ class PaxosNode(Entity):
 
     def _start_phase2(self, ballot_number: int) -> list[Event]:
         """Begin Phase 2 with the value determined from Phase 1 responses."""
+        if ballot_number in self._accept_sent or ballot_number not in self._proposed_values:
+            # Accepts for this ballot are already out (a later promise must not change
+            # the offered value), or the proposal moved on to a higher ballot.
+            return []
         responses = self._phase1_responses[ballot_number]
 
         # Find the highest-ballot accepted value among promises
@@ -363,11 +371,16 @@ class PaxosNode(Entity):
         ballot = Ballot(ballot_number, self.name)
         # Update proposed value with consensus value
         self._proposed_values[ballot_number] = chosen_value
+        self._accept_sent[ballot_number] = chosen_value
+        self._phase2_acceptors[ballot_number] = set()
+        self._phase2_responses[ballot_number] = 0
 
         # Self-accept
         if self._promised_ballot is None or ballot >= self._promised_ballot:
+            self._promised_ballot = ballot  # accepting a ballot implies promising it
             self._accepted_ballot = ballot
             self._accepted_value = chosen_value
+            self._phase2_acceptors[ballot_number].add(self.name)
             self._phase2_responses[ballot_number] = 1  # count self
 
         events: list[Event] = []
@@ -438,13 +451,16 @@ class PaxosNode(Entity):
         ballot_number = metadata["ballot_number"]
         self._accepts_received += 1
 
-        if ballot_number not in self._phase2_responses:
-            self._phase2_responses[ballot_number] = 0
-        self._phase2_responses[ballot_number] += 1
+        if ballot_number not in self._accept_sent:
+            return []  # not a ballot this node ran phase 2 for
 
-        if self._phase2_responses[ballot_number] >= self.quorum_size and not self._decided:
-            value = self._proposed_values.get(ballot_number)
-            return self._decide(ballot_number, value)
+        # Count each acceptor once, and decide the value that was offered for this ballot
+        acceptors = self._phase2_acceptors[ballot_number]
+        acceptors.add(metadata.get("from"))
+        self._phase2_responses[ballot_number] = len(acceptors)
+
+        if len(acceptors) >= self.quorum_size and not self._decided:
+            return self._decide(ballot_number, self._accept_sent[ballot_number])
         return []
 
     def _handle_decided(self, event: Event) -> None:
